@@ -210,4 +210,209 @@ theorem index_out_of_range (n : ℕ) (i : ℤ) (h : i < 0 ∨ (n : ℤ) ≤ i) :
   have : ¬ (0 ≤ i ∧ i < n) := by omega
   simp [this]
 
+/-! ### the package mirrors the forged elements, position by position and channel by channel -/
+
+theorem transpose_getElem? {α : Type} (nCh : ℕ) (rows : List (List α)) (hall : ∀ r ∈ rows, r.length = nCh)
+    (i : ℕ) (hi : i < nCh) (p : ℕ) (hp : p < rows.length) :
+    ((transpose nCh rows)[i]?).bind (·[p]?) = (rows[p]?).bind (·[i]?) := by
+  unfold transpose
+  simp only [List.getElem?_map, List.getElem?_range hi, Option.map_some, Option.bind_some]
+  have hfm : ∀ (dflt : α) (l : List (List α)), (∀ r ∈ l, r.length = nCh) →
+      l.filterMap (fun r => r[i]?) = l.map (fun r => (r[i]?).getD dflt) := by
+    intro dflt l
+    induction l with
+    | nil => intro _; rfl
+    | cons r rs ih =>
+      intro hl
+      have hr : i < r.length := by rw [hl r (by simp)]; exact hi
+      simp only [List.filterMap_cons, List.getElem?_eq_getElem hr, List.map_cons, Option.getD_some]
+      rw [ih (fun r' hr' => hl r' (by simp [hr']))]
+  have hr0 : i < (rows[p]).length := by rw [hall _ (List.getElem_mem hp)]; exact hi
+  rw [hfm (rows[p][i]) rows hall]
+  have hr : i < (rows[p]).length := hr0
+  simp [List.getElem?_eq_getElem hp, List.getElem?_eq_getElem hr]
+
+/-- a waveform passes phase 1 iff both AWG settings are numbers, the channel exists in the forged
+    element and — when its samples are decidable in the model — they lie in the channel's range;
+    the stored waveform is the forged one tagged with the rescaling (amplitude, offset) -/
+theorem awgCheckWave_ok (s : Sequence) (pos : ℕ) (el : Dict Chan ChOutF) (ch : Chan) (ob : List RangeOb) (w : Wave)
+    (h : awgCheckWave s pos el ch = .ok (ob, w)) :
+    ∃ ampl off c w0, s.specNum (keyOf ch "amplitude") = some ampl ∧ s.specNum (keyOf ch "offset") = some off ∧
+      lookupCh el ch = .ok c ∧ chWave c = .ok w0 ∧ w = { w0 with resc := some (ampl, off) } ∧
+      (∀ xs, w0.eval? = some xs → awgRangeCheck xs ampl off = .ok () ∧ ob = []) ∧
+      (w0.eval? = none → ob = [⟨pos, ch, w0, -ampl / 2 + off, ampl / 2 + off⟩]) := by
+  unfold awgCheckWave at h
+  split at h
+  · cases h
+  · rename_i ampl hampl
+    split at h
+    · cases h
+    · rename_i off hoff
+      split at h
+      · cases h
+      · rename_i c hc
+        split at h
+        · cases h
+        · rename_i w0 hw0
+          refine ⟨ampl, off, c, w0, hampl, hoff, hc, hw0, ?_⟩
+          split at h
+          · rename_i xs hxs
+            cases hr : awgRangeCheck xs ampl off with
+            | error e => rw [hr] at h; cases h
+            | ok u =>
+              rw [hr] at h
+              simp only [Except.map, Except.ok.injEq, Prod.mk.injEq] at h
+              refine ⟨h.2.symm, ?_, ?_⟩
+              · intro xs' hxs'
+                rw [hxs] at hxs'
+                cases hxs'
+                exact ⟨hr, h.1.symm⟩
+              · intro hn; rw [hn] at hxs; cases hxs
+          · rename_i hnone
+            simp only [Except.ok.injEq, Prod.mk.injEq] at h
+            refine ⟨h.2.symm, ?_, ?_⟩
+            · intro xs hxs; rw [hnone] at hxs; cases hxs
+            · intro _; exact h.1.symm
+
+/-- **what `outputForAWGFile` delivers**: with `P` the per-position forged elements of
+    `_prepareForOutputting` (equal to `forge(True, True)` by C10's `output_path_equals_forge`) and
+    `chans` the channels of element 1 (each with an offset setting), the package holds for channel
+    `i` and position `p` the waveform `awgCheckWave` accepted for `chans[i]` of `P[p]` (see
+    `awgCheckWave_ok`: in range, tagged with the rescaling), marker 1 and marker 2 of that
+    channel, and the four sequencing lists hold, in position order, the values of a sequencing
+    entry that passed the AWG5014 checks -/
+theorem awg_content (s : Sequence) (d : Deferred AWGPkg) (pkg : AWGPkg)
+    (h : s.outputForAWGFile = .ok d) (hp : d.pkg = some pkg) :
+    ∃ (P : List (Dict Chan ChOutF)) (chans : List Chan),
+      s.prepareForOutputting = .ok P ∧ s.channels = .ok pkg.channels ∧
+      (∀ ch ∈ chans, Dict.has s.awgspecs (keyOf ch "offset") = true) ∧
+      (∀ i p, i < chans.length → p < P.length → ∃ ob w,
+          (P[p]?).bind (fun el => (chans[i]?).map (awgCheckWave s (p + 1) el)) = some (.ok (ob, w)) ∧
+          ((pkg.wfms[i]?).bind (·[p]?)) = some w) ∧
+      (∀ p, p < P.length → ∃ m1 m2 q, (P[p]?).map (fun el => awgRow s chans (P.length : ℤ) (el, p)) = some (.ok (m1, m2, q)) ∧
+          Dict.get? s.sequencing ((p + 1 : ℕ) : ℤ) = some q ∧ awgSeqCheck q (P.length : ℤ) = .ok () ∧
+          m1.length = chans.length ∧ m2.length = chans.length ∧
+          (∀ i, i < chans.length → (pkg.m1s[i]?).bind (·[p]?) = m1[i]? ∧ (pkg.m2s[i]?).bind (·[p]?) = m2[i]?) ∧
+          pkg.trig_waits[p]? = some q.twait ∧ pkg.nreps[p]? = some q.nrep ∧
+          pkg.jump_tos[p]? = some q.jump_target ∧ pkg.gotos[p]? = some q.goto) := by
+  unfold outputForAWGFile at h
+  split at h
+  · cases h
+  · rename_i P hP
+    split at h
+    · cases h
+    · split at h
+      · cases h
+      · rename_i chans _
+        split at h
+        · cases h
+        · rename_i hoffs
+          split at h
+          · cases h
+          · rename_i checked hchecked
+            simp only at h
+            split at h
+            · split at h
+              · cases h
+              · cases h; cases hp
+            · rename_i rows hrows
+              split at h
+              · cases h
+              · rename_i chs hchs
+                cases h
+                simp only [Option.some.injEq] at hp
+                subst hp
+                have hl := mapM_ok_length _ _ _ hrows
+                have hlc := mapM_ok_length _ _ _ hchecked
+                simp only [List.length_zip, List.length_range, Nat.min_self] at hl hlc
+                refine ⟨P, chans, hP, hchs, ?_, ?_, ?_⟩
+                · intro ch hch
+                  simp only [List.any_eq_true, not_exists, not_and, Bool.not_eq_true', Bool.not_eq_true] at hoffs
+                  have := hoffs ch hch
+                  simpa using this
+                · intro i p hi hpp
+                  have hz : p < (P.zip (List.range P.length)).length := by simp; exact hpp
+                  have hr : p < checked.length := by omega
+                  have er := mapM_ok_getElem _ _ _ hchecked p hz hr
+                  simp only [List.getElem_zip, List.getElem_range] at er
+                  have hrl := mapM_ok_length _ _ _ er
+                  have hi' : i < (checked[p]).length := by omega
+                  have ec := mapM_ok_getElem _ _ _ er i hi hi'
+                  refine ⟨(checked[p])[i].1, (checked[p])[i].2, ?_, ?_⟩
+                  · simp [List.getElem?_eq_getElem hpp, List.getElem?_eq_getElem hi, ec]
+                  · have hall : ∀ r ∈ checked.map (fun row => row.map (·.2)), r.length = chans.length := by
+                      intro r hr'
+                      obtain ⟨x, hx, rfl⟩ := List.mem_map.mp hr'
+                      obtain ⟨k, hk, rfl⟩ := List.getElem_of_mem hx
+                      have hzk : k < (P.zip (List.range P.length)).length := by simp; omega
+                      have ek := mapM_ok_getElem _ _ _ hchecked k hzk hk
+                      simp only [List.length_map]
+                      exact mapM_ok_length _ _ _ ek
+                    have := transpose_getElem? chans.length (checked.map (fun row => row.map (·.2))) hall i hi p (by simpa using hr)
+                    simp only [awgPackage]
+                    rw [this]
+                    simp [List.getElem?_eq_getElem hr, List.getElem?_eq_getElem hi']
+                · intro p hpp
+                  have hz : p < (P.zip (List.range P.length)).length := by simp; exact hpp
+                  have hr : p < rows.length := by omega
+                  have er := mapM_ok_getElem _ _ _ hrows p hz hr
+                  simp only [List.getElem_zip, List.getElem_range] at er
+                  have er0 := er
+                  unfold awgRow at er
+                  simp only at er
+                  split at er
+                  · cases er
+                  · rename_i m1 hm1
+                    split at er
+                    · cases er
+                    · rename_i m2 hm2
+                      split at er
+                      · cases er
+                      · rename_i q hq
+                        split at er
+                        · cases er
+                        · rename_i hchk
+                          simp only [Except.ok.injEq] at er
+                          have hl1 := mapM_ok_length _ _ _ hm1
+                          have hl2 := mapM_ok_length _ _ _ hm2
+                          refine ⟨m1, m2, q, ?_, hq, hchk, hl1, hl2, ?_, ?_⟩
+                          · simp only [List.getElem?_eq_getElem hpp, Option.map_some]
+                            rw [er0, ← er]
+                          · intro i hi
+                            have rowlen : ∀ k (hk : k < rows.length), (rows[k]).1.length = chans.length ∧ (rows[k]).2.1.length = chans.length := by
+                              intro k hk
+                              have hzk : k < (P.zip (List.range P.length)).length := by simp; omega
+                              have ek := mapM_ok_getElem _ _ _ hrows k hzk hk
+                              unfold awgRow at ek
+                              split at ek
+                              · cases ek
+                              · rename_i a ha
+                                split at ek
+                                · cases ek
+                                · rename_i b hb
+                                  split at ek
+                                  · cases ek
+                                  · split at ek
+                                    · cases ek
+                                    · simp only [Except.ok.injEq] at ek
+                                      rw [← ek]
+                                      exact ⟨mapM_ok_length _ _ _ ha, mapM_ok_length _ _ _ hb⟩
+                            have hall1 : ∀ r ∈ rows.map (·.1), r.length = chans.length := by
+                              intro r hr'
+                              obtain ⟨x, hx, rfl⟩ := List.mem_map.mp hr'
+                              obtain ⟨k, hk, rfl⟩ := List.getElem_of_mem hx
+                              exact (rowlen k hk).1
+                            have hall2 : ∀ r ∈ rows.map (·.2.1), r.length = chans.length := by
+                              intro r hr'
+                              obtain ⟨x, hx, rfl⟩ := List.mem_map.mp hr'
+                              obtain ⟨k, hk, rfl⟩ := List.getElem_of_mem hx
+                              exact (rowlen k hk).2
+                            have t1 := transpose_getElem? chans.length (rows.map (·.1)) hall1 i hi p (by simpa using hr)
+                            have t2 := transpose_getElem? chans.length (rows.map (·.2.1)) hall2 i hi p (by simpa using hr)
+                            simp only [awgPackage]
+                            rw [t1, t2]
+                            simp [List.getElem?_eq_getElem hr, ← er]
+                          · simp only [awgPackage, List.getElem?_map, List.getElem?_eq_getElem hr, ← er, Option.map_some]
+                            exact ⟨trivial, trivial, trivial, trivial⟩
+
 end BB.C14
